@@ -86,8 +86,10 @@ def delegations_json(t, entries):
 S = DelegationFormat.SinglePool
 
 
-def menu(pool_tag):
+def menu(pool_tag, ref_tag=None):
     return {
+        # nothing but a reference to the pool defined on another element (ref_tag): the element is delegated all the same
+        'poolrefonly@d1': {CAP: [('d1', DelegationFormat.PoolReference, f'pool-{ref_tag}', None)]},
         'none': {},
         'L@d1': {LAB: [('d1', S, None, 0)]},
         'C@d1': {CAP: [('d1', S, None, 0)]},
@@ -100,8 +102,8 @@ def menu(pool_tag):
     }
 
 
-def annotate(graph, node_id, choice, pool_tag='x'):
-    ann = menu(pool_tag)[choice]
+def annotate(graph, node_id, choice, pool_tag='x', ref_tag=None):
+    ann = menu(pool_tag, ref_tag)[choice]
     for t, entries in ann.items():
         graph.update_node_property(node_id=node_id, prop_name=PROP[t], prop_val=delegations_json(t, entries))
     return {t: entries for t, entries in ann.items()}
